@@ -4,6 +4,7 @@ set -e
 P=$(realpath "$1")
 D=/tmp/mrepo_try
 rm -rf $D && rsync -a --exclude target --exclude .git /repo/ $D/
+find $D -name "*.rs" -exec touch {} +
 (cd $D && patch -p1 -s < "$P") || { echo "patch failed"; rm -rf $D; exit 3; }
 cd /verif
 set +e
